@@ -38,7 +38,7 @@ m={"version":1,"setup_cmd":"./check --setup",
  "hooks":{"guard":"cargo feature `verif` (on utils, chunk_cache, cas_client, data; new inert crate verif_hooks)",
   "enable":"the harness crates under /verif/harness are cargo path-dependents of /repo/<crate> with features=[\"verif\"]; every ./check run does an incremental cargo build --offline first",
   "baseline_off_cmd":"cd /repo && cargo nextest run --workspace --no-fail-fast --offline",
-  "source_commits":["f198c7b","5a597fe","61cee61","49b5b9d","fbaea1e"],"add_only":True},
+  "source_commits":["f198c7b","5a597fe","61cee61","49b5b9d","fbaea1e","06d5c26"],"add_only":True},
  "engines":[
   {"name":"E1 vsched","path":"harness/vcore/src/sched.rs","serves_properties":["C12","C13","C20","C16"],"kind_free_text":"cooperative scheduler over real OS threads + stateless preemption-bounded DFS, replay-checked"},
   {"name":"E2 vfs","path":"harness/vcore/src/vfs.rs","serves_properties":["C12","C13","C18","C19"],"kind_free_text":"libc symbol interposition: FS switch points, crash snapshots, fake clock"},
